@@ -330,6 +330,23 @@ def cfi_twin_keeps_release(ctx, tabs):
                      sample={"row": twin, "twin_of": rname})
 
 
+def capsule_dummy_intent(ctx, tabs):
+    """C06/T3: a Fortran row that hands memory to the caller through a capsule dummy (a finalizable derived type,
+    {F_capsule_type}) declares that dummy intent(OUT): the previous content of the caller's variable is then finalised
+    (released) on entry instead of being overwritten and leaked when the same capsule is used for a second call."""
+    for lang, t in sorted(tabs.items()):
+        for rname, row in sorted(t["rows"].items()):
+            if not rname.startswith("f_"):
+                continue
+            for line in row.get("arg_decl") or []:
+                if isinstance(line, str) and "type({F_capsule_type})" in line.replace(" ", "").replace("type(", "type(") \
+                        or isinstance(line, str) and "{F_capsule_type}" in line:
+                    ok = re.search(r'intent\(\s*OUT\s*\)', line, re.I) is not None
+                    ctx.item("C06/T3/%s/%s.capsule-dummy-intent-out" % (lang, rname), ok,
+                             "row %s declares its capsule dummy %r: without intent(OUT) a capsule that is reused keeps "
+                             "(and then loses) the memory of the previous call" % (rname, line), sample={"row": rname, "decl": line})
+
+
 # ------------------------------------------------------------------------------------------------- C10 / T1
 CAP_LEN = "{c_var_len}"
 CAP_CFI = "{cfi_prefix}{c_var}->elem_len"
@@ -409,6 +426,22 @@ def char_call_roles(ctx, tabs):
                     and "allocatable" not in parts:
                 ctx.item("C10/T1/%s/%s.output-has-capacity" % (lang, rname), "len" in bufs,
                          "output row is not given the declared length: buf_args=%r" % bufs)
+            # text returned into a fixed-length Fortran variable defines ALL of it: the row goes through a helper
+            # proved to blank-fill up to the capacity, or blank-fills with memset over the capacity itself
+            if ("buf" in parts or "cfi" in parts) and parts[1] in ("char", "string") and \
+                    ("out" in parts or "result" in parts or "inout" in parts) and "allocatable" not in parts \
+                    and not rname.startswith("c_mixin"):
+                fills = False
+                for args in calls_of(lines, "ShroudStrCopy"):
+                    fills = fills or (len(args) == 4 and cap_ok(args[1]))
+                for args in calls_of(lines, "ShroudStrBlankFill"):
+                    fills = fills or (len(args) == 2 and cap_ok(args[1]))
+                for args in calls_of(lines, "memset"):
+                    fills = fills or (len(args) == 3 and args[1] == "' '" and cap_ok(args[2]))
+                ctx.item("C10/T1/%s/%s.destination-fully-defined" % (lang, rname), fills,
+                         "row %s writes text into a fixed-length Fortran variable but neither ShroudStrCopy / "
+                         "ShroudStrBlankFill nor memset(' ') covers its whole capacity: the tail keeps whatever it held" % rname,
+                         sample={"row": rname})
 
 
 # ------------------------------------------------------------------------------------------------- C04
